@@ -1447,11 +1447,12 @@ class Component(composites.Composite, metaclass=ComponentType):
         """Returns the mass density of the object in g/cc."""
         density = composites.Composite.density(self)
 
-        if not density and not isinstance(self.material, void.Void):
+        if not self.p.numberDensities and not isinstance(self.material, void.Void):
             # possible that there are no nuclides in this component yet. In that case,
             # defer to Material. Material.density is wrapped to warn if it's attached
             # to a parent. Avoid that by calling the inner function directly
-            density = self.material.density.__wrapped__(
+            matDensity = type(self.material).density
+            density = getattr(matDensity, "__wrapped__", matDensity)(
                 self.material, Tc=self.temperatureInC
             )
 
